@@ -5,7 +5,7 @@ import os
 import sys
 import traceback
 
-from .core import (AnalysisError, Timer, VERIF_ROOT, finding_matches, load_known_findings, write_evidence)
+from .core import (AnalysisError, Timer, VERIF_ROOT, finding_matches, load_known_findings, write_evidence, classify)
 from .facts import Repo
 
 
@@ -29,6 +29,13 @@ def run_rules(repo, prop, tier):
         except Exception as e:
             import traceback as _tb
             errors.append("%s: internal error %s: %s | %s" % (rule.__name__, type(e).__name__, e, _tb.format_exc().strip().splitlines()[-3:]))
+    classify(obs)
+    seen_u = set()
+    for o in obs:
+        if o.status == "undecided" and o.key not in seen_u:
+            seen_u.add(o.key)
+            errors.append("UNDECIDED %s %s:%d %s :: %s -- the construct is not in a shape this rule can judge (%s)" % (
+                o.rule, o.file, o.line, o.func, o.construct[:80], o.detail[:160]))
     return spec, obs, errors
 
 
@@ -55,7 +62,7 @@ def main(argv=None):
         selftest_info = None
         if args.tier == "thorough" and not args.replay and not args.no_evidence:
             _kf = load_known_findings()
-            bad_now = [o for o in obs if not o.ok and not any(finding_matches(f, prop, o) for f in _kf)]
+            bad_now = [o for o in obs if o.status == "violated" and not any(finding_matches(f, prop, o) for f in _kf)]
             from selftest.corpus import run_corpus
             selftest_info = run_corpus(prop, skip=bool(bad_now) or bool(rule_errors), seed=seed)
     except AnalysisError as e:
@@ -86,14 +93,14 @@ def main(argv=None):
             print("VIOLATION property=%s replay=%s" % (prop, args.replay))
         return rc
 
-    if rule_errors and not any(not o.ok for o in obs):
+    if rule_errors and not any(o.status == "violated" for o in obs):
         for e in rule_errors:
             print("ANALYSIS-ERROR property=%s %s" % (prop, e))
         return 2
     for e in rule_errors:
         print("NOTE property=%s a rule could not decide (reported because other rules found violations): %s" % (prop, e))
     findings = load_known_findings()
-    violated = [o for o in obs if not o.ok]
+    violated = [o for o in obs if o.status == "violated"]
     known, new = [], []
     for o in violated:
         f = next((f for f in findings if finding_matches(f, prop, o)), None)
